@@ -133,6 +133,7 @@ def targets():
     # representation, whatever representation was fitted -- without it the statistic is not invariant under scaling in Y
     from . import dataflow as DF
     ts += [DF.target_kk_producer("_use_matrix_inversion", "_inversion_test"), DF.target_kk_producer("_use_least_squares_fitting", "_leastsq_test")]
+    ts.append(DF.target_kk_producer_cnls())
     # shared with C07: the whole of every linear test (_test_wrapper -> _complex/_real/_imaginary_test -> _update_circuit), run on
     # symbolic values, takes no decision by a tolerance (an absolute tolerance is a decision that depends on the units) and
     # reproduces a spectrum of its own model exactly, whatever its scale
